@@ -9,7 +9,8 @@ Kinds == {<<-1, -1>>, <<-1, INF>>, <<-INF, 2>>, <<-1, 2>>}          \* equality,
 Points == {<<0, 0>>, <<1, -1>>, <<-2, 1>>}
 Init == /\ \E s \in Scales : \E o \in Offsets : \E fs \in {<<1, 2>>, <<2, 1>>} : \E bnd \in {"finite", "mixinf"} :
            \E a \in Rows : \E k \in Kinds : \E pt \in {"abs", "rel"} : \E x \in Points :
-           \E which \in {"all", "vars", "obj", "con"} : \E fail \in BOOLEAN :
+           \E which \in {"all", "vars", "obj", "con", "offs", "scal"} : \E fail \in BOOLEAN :
+             \* (offs / scal: a variable transform with offsets / scales only)
              /\ (pt = "rel" => bnd = "finite")
              /\ (which # "all" => o = <<1, -1>> /\ fs = <<1, 2>> /\ a = <<1, -2>>)       \* keep the single-transform families small
              /\ (fail => which \in {"all", "vars"} /\ a = <<1, 1>> /\ x = <<1, -1>>)
